@@ -20,7 +20,7 @@ ok = lambda **kw: {"b": "ok", "out": kw}  # noqa: E731
 
 
 def make_program(ch: Choices, tier: str) -> Program:
-    shape = ch.choice("c15.shape", ["self", "cycle", "side", "forward", "cycle", "side", "forward", "fanin", "sidein"])
+    shape = ch.choice("c15.shape", ["self", "cycle", "side", "forward", "cycle", "side", "forward", "fanin", "sidein", "twojump"])
     mj: Any = ch.choice("c15.maxj", [None, 0, 1, 3])
     where = ch.choice("c15.mjwhere", ["wf", "stage"])
     limit = 10 if mj is None else mj
@@ -71,6 +71,17 @@ def make_program(ch: Choices, tier: str) -> Program:
             {"ref": "D", "deps": ["B", "S"], "ctx": {}, "tasks": [ok()]},
         ]
         model.update(src="B", loop=["A", "B"], after=["D"], once=[], side=["S"])
+    elif shape == "twojump":
+        # two stages of one cycle both keep jumping back to its start: A -> B -> C, B and C each "always" jump to A.
+        # Each of them may redirect only a bounded number of times, so the loop must end (failed) after at most 2 x limit
+        # jumps - one jumper must not renew the other's budget
+        stages = [
+            {"ref": "A", "deps": [], "ctx": {}, "tasks": [ok(k0="s")]},
+            {"ref": "B", "deps": ["A"], "ctx": dict(sctx), "tasks": [{"b": "jumper", "target": "A", "n": 99, "alt": 2, "out": {}}]},
+            {"ref": "C", "deps": ["B"], "ctx": dict(sctx), "tasks": [{"b": "jumper", "target": "A", "n": 99, "out": {}}]},
+            {"ref": "Z", "deps": ["C"], "ctx": {}, "tasks": [ok()]},
+        ]
+        model.update(src="C", n=99, loop=[], after=["Z"], once=[], twojump=True)
     elif shape == "fanin":
         # the fan-in lies *inside* the loop: A -> B -> D ; A -> C -> D ; D -> E ; E jumps back to B.  C is a side branch
         # outside the re-armed set; whether D re-runs is not fixed by the property, so it is in no list
@@ -111,10 +122,19 @@ def judge(prog: Program, ref: Any, run: dict[str, Any], info: dict[str, Any]) ->
     jumps_applied = sum(1 for r in h.audit if r["kind"] == "q_ins" and r["new"] == "StartStage" and "|JumpToStage|" in (r["ctx"] or ""))
     exp_jumps = min(n, L)
     exceeded = n > L
-    if jumps_applied != exp_jumps:
+    if jumps_applied != exp_jumps and not m.get("twojump"):
         problems.append(("wrong-jump-count", f"{jumps_applied} jumps were performed, expected min(requested {n}, limit {L}) = {exp_jumps}",
                          "jump-count:" + ("more" if jumps_applied > exp_jumps else "fewer")))
     src = m["src"]
+    if m.get("twojump"):
+        # bounded and terminating is all that is asked of this shape
+        if jumps_applied > 2 * L + 1:
+            problems.append(("limit-not-enforced", f"{jumps_applied} jumps were performed by two jumping stages whose limit is {L} each", "twojump-unbounded"))
+        if fs["wf_status"] != "TERMINAL":
+            problems.append(("limit-not-enforced", f"two stages that always jump: the workflow ended {fs['wf_status']}, expected TERMINAL", "twojump-wf"))
+        if counts.get(task_name("Z", 0), 0) > 0:
+            problems.append(("ran-after-failed-loop", "the stage after the never-ending loop executed", "twojump-after"))
+        return one_violation("C15", problems, h, prog=prog)
     if m["shape"] == "forward":
         if n == 0:
             want = {r: "SUCCEEDED" for r in ["A", "B", "C", "D", "E"]}
